@@ -1,7 +1,9 @@
 mod builddrv;
 mod cachew;
 mod dequedrv;
+mod freerun;
 mod gen;
+mod sched;
 mod sketchdrv;
 mod types;
 
@@ -259,6 +261,8 @@ fn main() {
         "sketch" => sketchdrv::cmd_sketch(&args[2..]),
         "deque" => dequedrv::cmd_deque(&args[2..]),
         "build" => builddrv::cmd_build(&args[2..]),
+        "sched" => sched::cmd_sched(&args[2..]),
+        "free" => freerun::cmd_free(&args[2..]),
         other => {
             eprintln!("unknown command {}", other);
             std::process::exit(2);
